@@ -41,6 +41,12 @@ def plan(tier, seed):
             chunks = max(1, min(32, n // 3000))
             for c in range(chunks):
                 jobs.append(("call", P, sh, c, chunks, n // chunks))
+        # three and four chains: the copy-number flag is a property of *all* qualifying chains together, not of neighbouring pairs
+        for sh in [(3, 1), (4, 1)] + ([(3, 2)] if P == 2 else []):
+            n = len(ref.multisets(range(3), P)) ** (sh[0] * sh[1])
+            chunks = max(1, min(32, n // 3000))
+            for c in range(chunks):
+                jobs.append(("call", P, sh, c, chunks, n // chunks))
     for sh in [(1, 1), (1, 2), (1, 3), (2, 2)] + ([(1, 4)] if tier == "thorough" else []):
         n = 16 ** (sh[0] * sh[1])
         chunks = max(1, min(48, n // 1500))
@@ -370,8 +376,9 @@ def job_ped(job):
     maxp = 4
     pools = [ref.multisets(range(3), p)[:: (2 if p > 2 else 1)] for p in ploidies]
     combos = list(itertools.product(*[range(min(len(p), 4)) for p in pools]))
-    for chains, steps in ((1, 2), (2, 2), (1, 3)):
-        for tr in itertools.islice(itertools.product(combos, repeat=chains * steps), 0, 20000, 7):
+    for chains, steps in ((1, 2), (2, 2), (1, 3), (3, 1), (4, 2)):
+        stride = 7 if chains * steps <= 4 else 100003
+        for tr in itertools.islice(itertools.product(combos, repeat=chains * steps), 0, 20000 * stride // 7, stride):
             arr = np.full((chains, steps, 3, maxp), -1, np.int16)
             for k, st in enumerate(tr):
                 c, s = divmod(k, steps)
@@ -402,6 +409,14 @@ def job_ped(job):
                     rc = [sum(n * g.count(a) for g, n in c.items()) / tot for a in range(3)]
                     if np.abs(cnt - rc).max() > 1e-12:
                         r.violation("ped-individual-frequencies|i=%d" % i, "counts %r expected %r" % (cnt.tolist(), rc), payload)
+                    # every chain of the individual's trace takes part in the chain-level summaries (more chains than retained steps included)
+                    if chains > 1:
+                        chs = [[pools[i][tr[cc * steps + s_][i]] for s_ in range(steps)] for cc in range(chains)]
+                        for thr in (0.5, 1.0):
+                            flag = ind.replicate_incongruence(thr)
+                            opts = incongruence_options(chs, burn, thr, ploidies[i])
+                            if flag not in opts:
+                                r.violation("ped-individual-incongruence|i=%d|threshold=%g" % (i, thr), "flag %d, definition allows %r (chains %r, burn %d)" % (flag, sorted(opts), chs, burn), payload)
             r.outcome(tr)
     r.sample({"pedigree_traces": "padded (2,4,3)-ploid", "cases": r.evaluations})
     return r
